@@ -78,7 +78,7 @@ class EBase:
 
 
 def make(form, enc, specs, plaintext: bytes, *, zip_=False, aad=None, unprotected=None, style="compact", rng=None,
-         alg_in="protected", params_in="recipient", apu=None, apv=None, extra_protected=None, p2c=1000, **kw) -> EBase:
+         alg_in="protected", params_in="recipient", apu=None, apv=None, extra_protected=None, p2c=1000, epk_extra=None, **kw) -> EBase:
     """specs: [(alg, recipient_jwk, sender_jwk|None)]"""
     protected = {"enc": enc}
     if zip_:
@@ -102,7 +102,7 @@ def make(form, enc, specs, plaintext: bytes, *, zip_=False, aad=None, unprotecte
         if apv is not None and is_ecdh(alg):
             (protected if form == "compact" else h)["apv"] = apv
         recs.append({"header": h or None, "key": RefKey.from_jwk(rk).public() if rk["kty"] != "oct" else RefKey.from_jwk(rk),
-                     "sender": RefKey.from_jwk(sk) if sk else None})
+                     "sender": RefKey.from_jwk(sk) if sk else None, "epk_extra": epk_extra})
     tok, info = rjwe.encrypt(protected, plaintext, recs, unprotected=unprotected, aad=aad, form=form, style=style, rng=rng,
                              params_in=params_in, p2c=p2c, **kw)
     return EBase(form, tok, info, plaintext, [{"alg": a, "key": rk, "sender": sk} for a, rk, sk in specs], info["protected"], aad)
